@@ -29,6 +29,8 @@ impl Rng {
 }
 
 pub struct Ctx {
+    /// set when the bound on the number of cases cut the generation short
+    pub capped: std::cell::Cell<bool>,
     /// upper bound on the lengths `rand_len` chooses (operations whose model evaluation is quadratic in the length)
     pub max_len: std::cell::Cell<usize>,
     /// indices (in emission order) of cases that must not be executed, see `emit`
@@ -45,6 +47,12 @@ pub struct Ctx {
 
 impl Ctx {
     pub fn emit(&self, c: Case) -> Res {
+        // a hard bound on the size of a trace (the generators are sized well below it; a generator that turns out
+        // to explode - e.g. "every rotation amount of every lattice value" on a 2560-bit type - is cut here)
+        if self.n.get() >= (if self.thorough { 1_500_000 } else { 400_000 }) {
+            self.capped.set(true);
+            return Res::Panic;
+        }
         // a case listed in `skip` killed the process in an earlier attempt (an abort cannot be caught): it is not
         // executed again, its outcome is recorded as the panic class
         let r = if self.skip.contains(&self.n.get()) { Res::Panic } else { exec(&c) };
@@ -745,7 +753,13 @@ fn gen_c06(ctx: &mut Ctx) {
             let lat = lattice(len, &ctx.rng);
             let vals: Vec<Vec<u64>> = if ctx.thorough { lat } else { lat.into_iter().take(12).collect() };
             for limbs in vals {
-                let ks: Vec<usize> = if len <= 18 || ctx.thorough { (0..=len).collect() } else { vec![0, 1, 7, 8, 9, len / 2, len - 1, len] };
+                let ks: Vec<usize> = if len <= 18 || (ctx.thorough && len <= 34) { (0..=len).collect() } else {
+                    let mut v = vec![0, 1, 7, 8, 9, 63, 64, 65, len / 2, len - 65.min(len), len - 64.min(len), len - 1, len];
+                    v.retain(|k| *k <= len);
+                    v.sort();
+                    v.dedup();
+                    v
+                };
                 for k in ks {
                     let a = make_val(ka, len, &limbs, 0, false);
                     ctx.emit(Case::new(54).arg(k as u128).val(a.clone()));
@@ -1384,7 +1398,7 @@ fn gen_c11(ctx: &mut Ctx) {
         for x in 0..256u128 {
             ctx.emit(Case::new(8).kind(k).arg(8).arg(x));
         }
-        if ctx.thorough {
+        if ctx.thorough && [0u8, 4, 5, 8, 11, 13, KD, KA].contains(&k) {
             for x in 0..65536u128 {
                 ctx.emit(Case::new(8).kind(k).arg(16).arg(x));
             }
